@@ -73,9 +73,6 @@ TIo ==
   /\ LET e == E  f == e.f IN
      IF ~IsData(e) THEN UNCHANGED <<written, synced, wends, pend>>
      ELSE CASE e.kind = "open" ->
-                 \* C13: a file is flushed before the engine rotates away from it: when a new data file is
-                 \* created while the database is open every other data file is fully flushed
-                 /\ Must("c13rot", (f \notin DOMAIN written /\ e.n = 0 /\ pend # None /\ pend.op # "Open") => AllFlushed)
                  \* the engine opens a file once per Open: what it finds is the file's content (left by a clean
                  \* Close, or just adopted from a merge, in which case the old bookkeeping is void)
                  /\ written' = IF f \in DOMAIN written /\ written[f] = e.n THEN written ELSE Upd(written, f, e.n)
@@ -84,6 +81,9 @@ TIo ==
                  /\ UNCHANGED pend
             [] e.kind = "write" ->
                  LET w0 == Get(written, f, 0)  w1 == w0 + e.n IN
+                 \* C13: a file is flushed before the engine rotates away from it: whenever the engine writes to a
+                 \* data file, every data file with a smaller id (the files it has rotated away from) is fully flushed
+                 /\ Must("c13rot", \A g \in DOMAIN written : g < f => synced[g] = written[g])
                  /\ written' = Upd(written, f, w1)
                  /\ synced' = IF f \in DOMAIN synced THEN synced ELSE Upd(synced, f, 0)
                  /\ wends' = Upd(wends, f, Get(wends, f, {0}) \cup {w1})
